@@ -13,6 +13,9 @@
 (* 2e-4 relative.                                                            *)
 (***************************************************************************)
 EXTENDS Integers, Sequences, TLC, Fix, Json
+\* RecordForms: the record of smoke numbers is a value - the index is a function of the four numbers it holds when it is
+\* handed over, whether it is a new object each time or one working copy overwritten in place during a sweep
+RecordForms == {"fresh", "working_copy"}
 Modes == {"idle", "approach", "climb", "takeoff"}
 Afr(m) == CASE m = "idle" -> 106 [] m = "approach" -> 83 [] m = "climb" -> 51 [] m = "takeoff" -> 45
 Engines == {"TF", "MTF"}
